@@ -101,6 +101,19 @@ Ideas in other directions (only where provably equivalent for every input that m
   - subscribe()/unsubscribe() argument normalisation written as a small function returning the list of (topic, qos) pairs for the three accepted shapes (string + qos, one pair, list of pairs), `isinstance` chains reordered where exclusive, `list(topics)` copies ONLY where unobservable;
   - identifier allocation: `makeId` as `itertools.islice`/`count` based search, `_idInUse` as a set built per call, the counter advanced by a helper `_nextCandidate()`; never returning 0 and never skipping the in-use test;
   - timers: `callLater` wrapped by `_later(delay, fn, *args)`, retry callbacks bound with `functools.partial` or lambdas with default arguments, `alarm` handles swapped through a `_rearm(request, delay, callback)` that cancels nothing and only stores the new handle where the original did."""
+if mode == "neutral8":
+    mode = "neutral"
+    EXTRA = """IMPORTANT - be original: seven earlier rounds of refactorings of this library already used the following reshapes, so do NOT make them the core of yours (they may appear incidentally); look for DIFFERENT, equally legitimate ways a maintainer might restructure the code:
+  - chain()/generator-based loops over the windows, per-entry try/except, `_markDup`/`_wire`/`_transmit`/`_later`/`_rearm` helpers, `_failWindow`, early-return handlers, `_restoreSession` + `_announceConnection`, dict of bound methods keyed by a flag, `_slots(addr)`, `islice(iter(...))` in makeId, `_connectRequest(...)` builders, `_startKeepalive`, validators as generators or tables, mix-in state classes, base classes for the acknowledgement PDUs, named mask constants, `_variablePart`, `_assemble`, `_Cursor`.
+Ideas in other directions (only where provably equivalent for every input that matters - argue it in NOTES.md):
+  - defensive checks that reject ONLY what was already rejected (or could not occur): in decoders `if len(rest) < 2: raise IndexError(...)` style checks placed where the original would raise the same exception class anyway, `assert`-free explicit length tests that use `>` where a packet may legitimately end exactly there; in `PUBLISH.encode` the size limit written as `(1 << 28) - 1`, `0x0FFFFFFF` or `128 ** 4 - 1`;
+  - `MQTTFactory._idInUse` / `makeId` organised differently but still looking at every window of every address and the queue for every candidate: one helper per registry kind called unconditionally, a tuple of registries built by a `_registriesInUse()` method, `any(msgId in w for reg in ... for w in reg.values())`, the queue scanned first;
+  - `buildProtocol`: the six per-address containers created by a comprehension over registry names with `getattr`, by `setdefault`, or by a small `_AddressSlots` helper - each registry still gets its OWN fresh container for a new address and keeps the existing one otherwise;
+  - registration order in doPublish/doSubscribe/doUnsubscribe kept exactly (validate, allocate id, encode, THEN register and arm) but expressed through helpers (`_register(window, request)`, `_encodeOrFail(request)` returning a failed Deferred or None);
+  - the clean-session purge and the loss clean-up using `window.pop(k)` AFTER every test that decides whether the entry is touched, `popitem()`-free, key snapshots via `tuple(window)` / `sorted(window)` only where the order is provably unobservable - otherwise keep insertion order;
+  - connectionLost in base.py restructured with guard clauses that still reset the state to IDLE and schedule the notification on every path; handleCONNACK cancelling the CONNACK deadline first on BOTH outcomes;
+  - keepalive bookkeeping (`_pingReq` fields) moved into a tiny `_Keepalive` helper object or namedtuple-like class with `timer`/`alarm`/`keepalive` attributes and methods that do exactly the old statements; no `reset()`/`delay()` calls;
+  - setters (`setWindowSize`, `setTimeout`, `setBandwith`) with their bounds as class constants and the test written as `not (LO <= n <= HI)`, `n < LO or n > HI`, or via a shared `_within(n, lo, hi)` predicate; never `range()` membership (it rejects non-integers and excludes the end)."""
 if mode == "break":
     used = []
     for f in sorted(glob.glob("/verif/seeded/%s-*/meta.json" % pid)):
